@@ -115,14 +115,22 @@ func init() {
 		return what
 	}
 	set("inline", func(st *boltfmt.State, ps int) string { return need(st.NInline >= 1, "no inline bucket") })
-	set("leaf", func(st *boltfmt.State, ps int) string { return need(st.NBranch == 0 && pagedBuckets(st) >= 1, "not a single paged leaf") })
-	set("twolevel", func(st *boltfmt.State, ps int) string { return need(st.NBranch >= 1 && !branchOverBranch(st), "not a two-level tree") })
-	set("threelevel", func(st *boltfmt.State, ps int) string { return need(branchOverBranch(st), "no branch page below a branch page") })
+	set("leaf", func(st *boltfmt.State, ps int) string {
+		return need(st.NBranch == 0 && pagedBuckets(st) >= 1, "not a single paged leaf")
+	})
+	set("twolevel", func(st *boltfmt.State, ps int) string {
+		return need(st.NBranch >= 1 && !branchOverBranch(st), "not a two-level tree")
+	})
+	set("threelevel", func(st *boltfmt.State, ps int) string {
+		return need(branchOverBranch(st), "no branch page below a branch page")
+	})
 	set("overflow", func(st *boltfmt.State, ps int) string { return need(st.NOverflow >= 2, "no overflow pages") })
 	set("nested", func(st *boltfmt.State, ps int) string {
 		return need(pagedBuckets(st) >= 3 && st.NInline >= 1, "needs paged nested buckets and an inline one")
 	})
-	set("bigkeys", func(st *boltfmt.State, ps int) string { return need(branchWithOverflow(st), "no branch page with overflow pages") })
+	set("bigkeys", func(st *boltfmt.State, ps int) string {
+		return need(branchWithOverflow(st), "no branch page with overflow pages")
+	})
 	set("bigfree", func(st *boltfmt.State, ps int) string {
 		if ps != 1024 || st.Meta.Freelist == boltfmt.NoFreelist {
 			return "" // the list only outgrows a page at 1 KiB pages (and only a persisted list occupies pages)
